@@ -18,6 +18,7 @@ import (
 	"pgregory.net/rapid"
 
 	"verif/harness/internal/ev"
+	"verif/harness/internal/ref"
 	"verif/harness/internal/sys"
 )
 
@@ -552,6 +553,15 @@ func c54One(tb ev.TB, rec *ev.Rec, w *c54World, c *c54Case, n int, nComp *int) {
 		return
 	}
 	if e.Msg == nil {
+		// header-only parse to tell a Content-Length that promises more than was sent from other damage
+		if hm, herr := ref.ParseResponse(e.Raw, "HEAD", true); herr == nil && hm.HasCL && !hm.Chunked && int64(len(e.Raw)-hm.HeaderLen) < hm.CL {
+			key := "content-length-longer-than-body"
+			if ceh := strings.ToLower(strings.Join(hm.Get("Content-Encoding"), ",")); (ceh == "gzip" || ceh == "br") && ceh != strings.ToLower(s.UpCE) && hm.CL == int64(len(s.Body)) {
+				key = "stale-content-length"
+			}
+			rec.Fail(tb, key, wit, "Content-Length %d but only %d body bytes arrived before BFE closed (backend body %d bytes, Content-Encoding %q)", hm.CL, len(e.Raw)-hm.HeaderLen, len(s.Body), hm.Get("Content-Encoding"))
+			return
+		}
 		rec.Fail(tb, "malformed-response", wit, "response is not a well-formed HTTP message: %v", e.Err)
 		return
 	}
@@ -576,6 +586,9 @@ func c54One(tb ev.TB, rec *ev.Rec, w *c54World, c *c54Case, n int, nComp *int) {
 			}
 		} else if m.HasCL {
 			key = "content-length-shorter-than-body"
+			if ceNow := strings.ToLower(strings.Join(hdr(m, "Content-Encoding"), ",")); ceNow != strings.ToLower(s.UpCE) && (ceNow == "gzip" || ceNow == "br") && m.CL == int64(len(s.Body)) {
+				key = "stale-content-length"
+			}
 		}
 		rec.Fail(tb, key, wit, "%d bytes follow the delimited response (status %d, method %s, Content-Length %v, chunked %v): %s", len(rest), m.Status, c.Method, hdr(m, "Content-Length"), m.Chunked, clip(rest, 40))
 		return
